@@ -826,9 +826,22 @@ func c08AdminRace(run *common.Run, p int, dir string) {
 			steps = append(steps, fmt.Sprintf("CreateTable(t,%s) -> %s", famString(newFams), createSt))
 		}
 	}
+	createDone := make(chan drive.Status, 1)
+	createConcurrent := false
 	if !delWaited {
 		steps = append(steps, "DeleteTable(t) -> "+delSt.String()+"  [answered while the other request was parked]")
 		create()
+	} else if recreate {
+		// DeleteTable is waiting: a CreateTable of the same name sent now overlaps both other requests
+		createConcurrent = true
+		go func() { createDone <- drive.CreateTable(s.srv.Admin, c14Parents[0], "t", newFams) }()
+		select {
+		case st := <-createDone:
+			createDone <- st
+			steps = append(steps, fmt.Sprintf("CreateTable(t,%s) -> %s  [answered while DeleteTable was still waiting]", famString(newFams), st))
+			run.Count("adminrace_create_answered_while_delete_waited", 1)
+		case <-time.After(700 * time.Millisecond): // scheduling choice, not a verdict
+		}
 	}
 	s.child.send("release")
 	s.child.readLine(30 * time.Second)
@@ -848,7 +861,17 @@ func c08AdminRace(run *common.Run, p int, dir string) {
 			return
 		}
 		steps = append(steps, "DeleteTable(t) -> "+delSt.String()+"  [waited for the parked request]")
-		create()
+		if createConcurrent {
+			select {
+			case createSt = <-createDone:
+			case <-time.After(150 * time.Second):
+				fail("CreateTable was never answered")
+				return
+			}
+			steps = append(steps, fmt.Sprintf("CreateTable(t,%s) -> %s", famString(newFams), createSt))
+		} else {
+			create()
+		}
 		run.Count("adminrace_delete_waited_for_the_parked_request", 1)
 	}
 	if !delSt.OK() {
@@ -868,7 +891,7 @@ func c08AdminRace(run *common.Run, p int, dir string) {
 			return t
 		}
 		cands = append(cands, c14Registry{name: fresh()}) // modification ordered before the delete (or failed)
-		if modSt.OK() && !delWaited {
+		if modSt.OK() && (!delWaited || createConcurrent) {
 			if t := fresh(); applyMod(t) {
 				cands = append(cands, c14Registry{name: t}) // modification ordered after the re-creation
 			}
